@@ -392,7 +392,7 @@ class Gen:
         if op == ">>=" and "c-compound-div-mod-shr-in-lhs-type" in self.avoid:
             op = "&="
         if op in ("/=", "%="):
-            rhs = "((%s & 0x7f) + 1)" % self.expr(sc, self.anytype(), 1)
+            rhs = self.divisor(sc, "(%s)" % self.expr(sc, self.anytype(), 1))[0]
         elif op in ("<<=", ">>="):
             # keep the left operand unsigned or small: only use on unsigned lvalues
             if t.signed:
@@ -725,6 +725,21 @@ class Gen:
         self.tag("short-circuit")
         return "((%s) %s (%s))" % (self.compare(sc, depth - 1), op, self.compare(sc, depth - 1)), T_INT
 
+    def divisor(self, sc, b):
+        """A divisor that is never 0 and never -1, of a randomly chosen type
+        (also narrow and negative ones, so that the conversions applied to the
+        right operand of / % /= %= matter). -> (text, type)"""
+        r = self.r
+        if r.random() < 0.5:
+            return "((%s & 0x7f) + 1)" % b, T_INT if True else None
+        t = self.anytype()
+        mag = "((%s & 0x3f) + 2)" % b          # 2..65 fits every type
+        if t.signed and r.random() < 0.5:
+            self.tag("negative-divisor")
+            return "((%s)(-%s))" % (t.name, mag), t
+        self.tag("typed-divisor")
+        return "((%s)%s)" % (t.name, mag), t
+
     def unary(self, sc, depth):
         r = self.r
         a, at = self.subexpr(sc, depth - 1)
@@ -772,8 +787,7 @@ class Gen:
                 cbt = bt if bt.rank >= 3 else T_INT
                 b, bt = lit(v if cbt.signed or v > 0 else -v, cbt), cbt
             else:
-                b = "((%s & 0x7f) + 1)" % b
-                bt = promote(bt)
+                b, bt = self.divisor(sc, b)
             ct = common(at, bt)
             return "(%s %s %s)" % (a, op, b), ct
         if op in ("+", "-", "*") and ct.signed:
